@@ -1,6 +1,7 @@
 """Native sweeps through the public API (Parser::add_content + validate) with reference oracles written from the property
 statements.  They serve two purposes: (1) confirm a solver counterexample end-to-end before it is reported (a Kani
 counterexample lives at kernel level), (2) translation validation of the harness categories against what source text produces."""
+import json
 import replay
 
 CATS = ['primitive', 'void', 'array', 'map', 'list', 'string', 'charsequence', 'ibinder', 'fd', 'pfd', 'holder', 'interface', 'parcelable', 'enum', 'fwd', 'unknown_import', 'unresolved']
@@ -848,3 +849,85 @@ def sweep_error_tokens():
             # the first syntax error is at the injected token in all templates
             bad.append({'file': fid, 'text': files[fid][:50], 'what': 'syntax diagnostic range %s, offending token at %s' % (syn[0]['range'][:2], [start, end])})
     return len(files), bad
+
+
+# ---------------------------------------------------------------------------------------------------------------------------
+# C12: edit histories.  C13: perturbations of the rest of the project.  (Confirmation only; the verdicts come from lib/framecheck.)
+H_CONTENTS = {
+    'c0.aidl': 'package p; import p.B; import q.C; interface A { B get(); void set(in C c, out B b); }',
+    'c1.aidl': 'package p; parcelable B { int x; }',
+    'c2.aidl': 'package q; enum C { X, Y }',
+    'c3.aidl': 'package r; interface D { oneway int f(); void g(; }',
+}
+
+
+def sweep_c12(depth=2, rand_histories=40, rand_len=25):
+    import itertools
+    ids = ['a', 'b', 'c']
+    ops = ['add %s {dir}/%s' % (i, c) for i in ids for c in H_CONTENTS] + ['remove %s' % i for i in ids] + ['validate',
+           'addfile {dir}/c0.aidl', 'addfile {dir}/c1.aidl', 'addfile {dir}/missing.aidl', 'addfile {dir}/latin1.aidl']
+    lines = []
+    for h in itertools.product(ops, repeat=depth):
+        lines.append('reset')
+        lines += list(h)
+    # a directed scenario that exercises stale caches: validate between every change of a file another one imports
+    lines.append('reset')
+    lines += [l.replace('@', '{dir}/') for l in ('add a @c0.aidl', 'add b @c1.aidl', 'add c @c2.aidl', 'validate', 'remove b', 'validate', 'add b @c1.aidl', 'validate', 'remove c',
+                                                'validate', 'add c @c2.aidl', 'add a @c3.aidl', 'validate', 'add a @c0.aidl', 'validate', 'add b @c2.aidl', 'validate', 'remove a', 'add a @c0.aidl')]
+    # longer random histories (validate interleaved), seeded
+    import os, random
+    rnd = random.Random(int(os.environ.get('VERIF_SEED', '1')))
+    for _ in range(rand_histories):
+        lines.append('reset')
+        lines += [rnd.choice(ops) for _k in range(rand_len)]
+    r = replay.history(H_CONTENTS, lines, extra_files={'latin1.aidl': b'package p; parcelable B\xe9;'})
+    if 'crash' in r:
+        raise RuntimeError('history replay failed: %s' % str(r)[:300])
+    return r['steps'], r['bad']
+
+
+def digest_file(r):
+    return json.dumps(r['valid'], sort_keys=True)
+
+
+def sweep_c13():
+    """observed file + perturbations of the others that keep (key registered?, kind) of each of its imports"""
+    import json as _j
+    obs = ('package p; import p.B; import q.C; import x.Gone; import android.os.IBinder;\n'
+           'interface A { B get(); void set(in C c, out B b, in Gone g, in IBinder i); List<B> l(); Map<String,C> m(); void h(in Unimported u, in zz.Q q, in D d); }')
+    base = {'a.aidl': obs, 'b.aidl': 'package p; parcelable B { int x; }', 'c.aidl': 'package q; enum C { X, Y }',
+            'd.aidl': 'package r; interface D { void f(); }'}
+    same = [
+        ('add unrelated file', dict(base, **{'e.aidl': 'package s; parcelable E { int y; }'})),
+        ('remove non-imported file', {k: v for k, v in base.items() if k != 'd.aidl'}),
+        ('rewrite body of imported parcelable', dict(base, **{'b.aidl': 'package p;\nimport q.C;\n/** doc */ parcelable B { String s; C c; const int K = 3; }'})),
+        ('rewrite body of imported enum', dict(base, **{'c.aidl': 'package q; @Backing(type="byte") enum C { Z = 1 }'})),
+        ('imported file gains a validation error', dict(base, **{'b.aidl': 'package p; parcelable B { Unknown u; }'})),
+        ('imported file gains a recovered syntax error', dict(base, **{'b.aidl': 'package p; parcelable B { int x; int ; }'})),
+        ('rewrite non-imported file to broken', dict(base, **{'d.aidl': 'package r; interface {'})),
+        ('unrelated file with the same simple name in another package', dict(base, **{'e.aidl': 'package zz; interface B { void f(); }'})),
+        ('imported file moved to another id', dict({k: v for k, v in base.items() if k != 'b.aidl'}, **{'zzz.aidl': base['b.aidl']})),
+        ('file defining a simple name the observed file uses without importing it', dict(base, **{'e.aidl': 'package zz; parcelable Unimported { int a; }'})),
+        ('file defining a qualified name the observed file uses without importing it', dict(base, **{'e.aidl': 'package zz; parcelable Q { int a; }'})),
+        ('only the observed file left', {'a.aidl': obs, 'b.aidl': base['b.aidl'], 'c.aidl': base['c.aidl']}),
+        ('unrelated file importing the observed one', dict(base, **{'e.aidl': 'package s; import p.A; interface E { void f(in A a); }'})),
+    ]
+    differ = [
+        ('imported parcelable becomes interface', dict(base, **{'b.aidl': 'package p; interface B { void f(); }'})),
+        ('imported file removed', {k: v for k, v in base.items() if k != 'c.aidl'}),
+        ('missing import appears', dict(base, **{'g.aidl': 'package x; parcelable Gone { int z; }'})),
+        ('imported item renamed', dict(base, **{'b.aidl': 'package p; parcelable B2 { int x; }'})),
+    ]
+    ref = digest_file(replay.project(base)['files']['a.aidl'])
+    bad, n = [], 0
+    for what, files in same:
+        n += 1
+        r = replay.project(files)
+        if 'files' not in r or digest_file(r['files']['a.aidl']) != ref:
+            bad.append({'what': 'result of the observed file changed: ' + what, 'files': files})
+    for what, files in differ:
+        n += 1
+        r = replay.project(files)
+        if 'files' in r and digest_file(r['files']['a.aidl']) == ref:
+            bad.append({'what': 'negative control left the result unchanged: ' + what, 'files': files, 'control': True})
+    return n, bad
